@@ -4,7 +4,7 @@
    controls the optimizer and only lets last_res_values /
    last_targets_within_tol / the logged target columns differ at index j. *)
 From Coq Require Import List Bool Arith NArith ZArith Lia.
-From XD Require Import model.Opt proofs.OptBase proofs.OptInner proofs.OptOuter.
+From XD Require Import model.Opt proofs.OptBase proofs.OptInner proofs.OptOuter proofs.OptThm.
 Import ListNotations.
 
 (* lists equal except possibly at position j *)
@@ -443,6 +443,13 @@ Section Nonint.
   Lemma post_flags_R a s1 s2 : stR s1 s2 -> stR (post_flags E1 cf a s1) (post_flags E2 cf a s2).
   Proof. intros H. unfold post_flags. repeat apply able_R. exact H. Qed.
 
+  Lemma pre_clip_R s1 s2 : stR s1 s2 -> stR (pre_clip E1 cf s1) (pre_clip E2 cf s2).
+  Proof.
+    intros H. unfold pre_clip. normE. change (clip_knobs E2) with (clip_knobs E1). destruct (c_check cf); auto.
+    assert (Hq : knobs s2 = knobs s1 /\ va s2 = va s1) by (destruct H as (K & V & _); auto).
+    destruct Hq as [-> ->]. stR_solve.
+  Qed.
+
   (* related results, and in the first run every logged row has target j disabled *)
   Definition stRl (t1 t2 : state) : Prop := stR t1 t2 /\ rows_off t1.
 
@@ -451,9 +458,12 @@ Section Nonint.
     resR stRl (opt_step E1 cf fuel nn tb a b s1) (opt_step E2 cf fuel nn tb a b s2).
   Proof.
     intros H Hoff Hrows. unfold opt_step.
-    eapply resR_bind; [apply step_core_R; [apply pre_flags_R; exact H|]|].
-    - split; [exact Hoff|]. unfold rows_off in *. destruct (pre_flags_data E1 cf a s1) as (_ & L & _). normE.
-      rewrite L. exact Hrows.
+    eapply resR_bind; [apply step_core_R; [apply pre_flags_R; apply pre_clip_R; exact H|]|].
+    - destruct (pre_clip_facts E1 cf s1) as (Vc & Tc & Lc & _).
+      destruct (pre_flags_flags E1 cf a _ _ Vc Tc) as [_ Pt].
+      split; [unfold off in *; normE; rewrite Pt; exact Hoff|]. unfold rows_off in *.
+      destruct (pre_flags_data E1 cf a (pre_clip E1 cf s1)) as (_ & L & _). normE.
+      rewrite L, Lc. exact Hrows.
     - intros t1 t2 [T [_ Ot]]. unfold resR. split; [apply post_flags_R; exact T|].
       unfold rows_off in *. destruct (post_flags_data E1 cf a t1) as (_ & L & _). normE. rewrite L. exact Ot.
   Qed.
@@ -471,7 +481,10 @@ Section Nonint.
     assert (H0 : stR (set_sx s1 (Some x) (map (fun _ => true) x)) (set_sx s2 (Some x) (map (fun _ => true) x))) by stR_solve.
     assert (O0 : offS (set_sx s1 (Some x) (map (fun _ => true) x))) by (destruct Ho; split; auto).
     rewrite (opt_step_no_args E1), (opt_step_no_args E2).
-    pose proof (step_core_R fuel k tb b _ _ H0 O0) as R.
+    destruct (pre_clip_facts E1 cf (set_sx s1 (Some x) (map (fun _ => true) x))) as (_ & Tc & Lc & _).
+    assert (O0c : offS (pre_clip E1 cf (set_sx s1 (Some x) (map (fun _ => true) x)))).
+    { destruct O0 as [Oa Or]. unfold offS, rows_off, off in *. normE. rewrite Tc, Lc. auto. }
+    pose proof (step_core_R fuel k tb b _ _ (pre_clip_R _ _ H0) O0c) as R.
     match goal with |- resR _ (match ?b1 with Ok _ => _ | Err _ _ => _ | Div => _ end)
                               (match ?b2 with Ok _ => _ | Err _ _ => _ | Div => _ end) =>
       set (B1 := b1); set (B2 := b2) end.
@@ -481,12 +494,12 @@ Section Nonint.
       normE. rewrite Hl. destruct (c_assert cf && negb (lpwt t1)); cbn; auto. split; auto. }
     assert (Pb : post B1 (fun _ => True) (fun e t1 => rows_off t1)).
     { assert (Hrows : forall t m, log t = log s1 ++ m ->
-                Forall (good_new E1 cf (set_sx s1 (Some x) (map (fun _ => true) x))) m -> rows_off t).
+                Forall (good_new E1 cf (pre_clip E1 cf (set_sx s1 (Some x) (map (fun _ => true) x)))) m -> rows_off t).
       { intros t m L Fm. unfold rows_off. rewrite L. apply Forall_app; split; [exact (proj2 Ho)|].
-        eapply Forall_impl; [|exact Fm]. intros r [_ (_ & Rt & _)]. cbn in Rt. rewrite Rt. exact (proj1 Ho). }
+        eapply Forall_impl; [|exact Fm]. intros r [_ (_ & Rt & _)]. unfold off. normE. rewrite Rt, Tc. exact (proj1 Ho). }
       unfold B1. eapply post_bind'; [apply (step_core_spec E1 cf fuel k tb b)| |].
-      - intros e t (_ & (m & L & Fm)). eapply Hrows; eauto.
-      - intros t (_ & _ & _ & (r0 & M & extra & L & _ & Fm & _)).
+      - intros e t (_ & (m & L & Fm)). normE. rewrite Lc in L. eapply Hrows; eauto.
+      - intros t (_ & _ & _ & (r0 & M & extra & L & _ & Fm & _)). normE. rewrite Lc in L.
         destruct (c_assert cf && negb (lpwt t)); cbn; auto. eapply Hrows; eauto. }
     destruct B1 as [t1|e1 t1|], B2 as [t2|e2 t2|]; cbn in Rb, Pb; try tauto.
     destruct Rb as [-> T].
